@@ -39,7 +39,9 @@ pub fn renderable(p: &Program, build: &str) -> bool {
         // them as names)
         "classic" => !(f.lets || f.assign || f.lambda || f.rest || f.fnval || f.at_pattern || f.nested_mod)
             && !p.var_names().iter().any(|n| matches!(n.as_str(), "quote" | "qq" | "unquote")),
-        "cl22" => !f.lambda && !f.defconst,
+        // (cl22 refuses a lambda applied in place; a lambda handed to a non-inline function as a value compiles:
+        // the programs of lambda_value_ladder, recognised by their helper app22)
+        "cl22" => (!f.lambda || p.helpers.iter().any(|h| h.name() == "app22")) && !f.defconst,
         "cl21" | "s21" => !f.defconst,
         _ => true,
     }
@@ -73,6 +75,49 @@ fn outcome_json(r: &Value, nenvs: usize) -> Value {
     Value::Array(
         r["runs"].as_array().unwrap().iter().map(|o| if o[0] == "ok" { o.clone() } else { json!([o[0]]) }).collect(),
     )
+}
+
+/// LambdaValueLadder: a lambda that survives as a value (handed to a non-inline function that applies it) and
+/// captures a name bound by a let, a let* chain, an assign or an inline function's parameter: whatever expands the
+/// binder away has to rewrite the capture list with it (every dialect, cl22 with its front-end optimiser included)
+pub fn lambda_value_ladder() -> Vec<(Program, Vec<V>)> {
+    use crate::ast::{Expr, Helper, Pat};
+    let v = |n: &str| Expr::Var(n.to_string());
+    let pv = |n: &str| Pat::Var(n.to_string());
+    let lit = |n: i64| Expr::Lit(V::int(n));
+    let app = Helper::Defun { name: "app22".into(), pat: Pat::list(vec![pv("F"), pv("V")], Pat::Nil),
+        body: Expr::Apply(Box::new(v("F")), Box::new(Expr::List(vec![v("V")]))), inline: false };
+    let lam = |caps: Vec<&str>, body: Expr| Expr::Lambda(caps.iter().map(|c| c.to_string()).collect(), Pat::list(vec![pv("Z")], Pat::Nil), Box::new(body));
+    let call_app = |l: Expr, arg: Expr| Expr::Call("app22".into(), vec![l, arg], None);
+    let mul = |a: Expr, b: Expr| Expr::Prim(18, vec![a, b]);
+    let add = |a: Expr, b: Expr| Expr::Prim(16, vec![a, b]);
+    let args = Pat::list(vec![pv("P1"), pv("P2")], Pat::Nil);
+    let envs = vec![V::list(&[V::int(4), V::int(10)]), V::list(&[V::int(0), V::int(3)]), V::list(&[V::int(7), V::int(1)])];
+    let mut out = vec![];
+    let bodies: Vec<(Vec<Helper>, Expr)> = vec![
+        // a let-bound name
+        (vec![], Expr::Let(false, vec![("K".into(), add(v("P1"), lit(1)))], Box::new(call_app(lam(vec!["K"], mul(v("K"), v("Z"))), v("P2"))))),
+        // a let* chain: the capture is the last name
+        (vec![], Expr::Let(true, vec![("K".into(), add(v("P1"), lit(1))), ("M".into(), mul(v("K"), lit(2)))], Box::new(call_app(lam(vec!["M"], add(v("M"), v("Z"))), v("P2"))))),
+        // two captures, one let-bound and one a parameter
+        (vec![], Expr::Let(false, vec![("K".into(), add(v("P1"), lit(1)))], Box::new(call_app(lam(vec!["K", "P1"], Expr::List(vec![v("K"), v("P1"), v("Z")])), v("P2"))))),
+        // an assign-bound name
+        (vec![], Expr::Assign(vec![(pv("K"), add(v("P1"), lit(5)))], Box::new(call_app(lam(vec!["K"], mul(v("K"), v("Z"))), v("P2"))))),
+        // the parameter of an inline function
+        (vec![Helper::Defun { name: "inl22".into(), pat: Pat::list(vec![pv("K"), pv("W")], Pat::Nil), body: call_app(lam(vec!["K"], mul(v("K"), v("Z"))), v("W")), inline: true }],
+            Expr::Call("inl22".into(), vec![add(v("P1"), lit(1)), v("P2")], None)),
+        // a let inside a function body
+        (vec![Helper::Defun { name: "fun22".into(), pat: Pat::list(vec![pv("A"), pv("B")], Pat::Nil),
+            body: Expr::Let(false, vec![("K".into(), add(v("A"), lit(1)))], Box::new(call_app(lam(vec!["K"], mul(v("K"), v("Z"))), v("B")))), inline: false }],
+            Expr::Call("fun22".into(), vec![v("P1"), v("P2")], None)),
+        // a parameter captured directly (control)
+        (vec![], call_app(lam(vec!["P1"], mul(v("P1"), v("Z"))), v("P2"))),
+    ];
+    for (mut hs, body) in bodies {
+        hs.insert(0, app.clone());
+        out.push((Program { args: args.clone(), helpers: hs, body }, envs.clone()));
+    }
+    out
 }
 
 /// RecLadder: the second parameter reaches the result only by changing places in the argument list of a recursive
@@ -728,6 +773,8 @@ pub fn drive(args: &HashMap<String, String>) {
     if profile == "ladder" {
         progs.extend(use_ladder(false));
         progs.extend(rest_and_assign_ladders());
+        progs.extend(lambda_value_ladder());
+        progs.extend(rec_ladder(false));
         progs.extend(at_ladder());
         progs.extend(const_ladder());
         progs.extend(mod_ladder());
